@@ -67,4 +67,23 @@ def divsOK (d : List Int) (keys : List Int) : Bool :=
      | [] => false
      | d0 :: _ => keys.all (fun k => decide (d0 ≤ k)))
 
+/-! ### the presorted fast path (`_calculate_divisions` → `SortValues._lower` / `SetIndex._lower`) -/
+
+/-- `x.tolist() == x.sort_values(ascending=asc).tolist()` -/
+def sortedIn (asc : Bool) (l : List Int) : Bool := if asc then sortedInts l else sortedInts (l.map (fun x => -x))
+
+/-- `(maxes2 < mins2).all()`: ascending `maxes[i] < mins[i+1]`, descending `maxes[i+1] < mins[i]`
+    (entries are `(min, max)` of consecutive input partitions) -/
+def adjOK (asc : Bool) : List (Int × Int) → Bool
+  | [] => true
+  | [_] => true
+  | b :: n :: t => (if asc then decide (b.2 < n.1) else decide (n.2 < b.1)) && adjOK asc (n :: t)
+
+/-- the `presorted` flag computed from the per-partition minima and maxima (no all-null partition) -/
+def presorted (asc : Bool) (bounds : List (Int × Int)) : Bool :=
+  sortedIn asc (bounds.map (·.1)) && sortedIn asc (bounds.map (·.2)) && adjOK asc bounds
+
+/-- the fast path: no shuffle, every input partition is sorted in place -/
+def presortedPlan (srt : List Row → List Row) (parts : List (List Row)) : List Row := parts.flatMap srt
+
 end Dx.KS
